@@ -201,7 +201,6 @@ FilterExpr:
 		;
 PrimaryExpr:
 				'(' Expr ')'
-		|		'(' ')'
 		|		LITERAL
 				{
 					getProgBldr(exprlex).CodeLiteral($1);
